@@ -23,15 +23,24 @@
                                                         -> failure_needs_all_hits (a cell stays observed only
                                                            if each of its att+1 draws hit an observed column),
                                                            single_row_failure_iff (the exact failure event).
-        PARTIAL: the probability of that event ((k/N)^(att+1) for k observed of N columns under an
-        ideal uniform source) is arithmetic on top of single_row_failure_iff and is not stated as a
-        theorem about the real generator (PCG64 is outside the model).
+                                                           plentiful_failure_count (+ all_streams_exact,
+                                                           observed_draws_exact): of the N^(att+1) in-range draw
+                                                           streams exactly h^(att+1) make the call on one row warn,
+                                                           h = draws standing for an observed column of the row;
+                                                           plentiful_failure_bound: at most a 2^-(att+1) fraction
+                                                           when at least half of the draws miss.
+        PARTIAL: these are counts over all streams, i.e. the probability (h/N)^(att+1) under an IDEAL
+        source that serves the initial draw and every retry level from one stream (the extractor checks
+        that the source hands ONE generator through all levels; a level re-seeded from a seed value would
+        replay its draw).  That PCG64 behaves like an ideal source is not a theorem; the oracle flags a
+        warning / observed cell on plentiful rows when this probability (union bound over the cells of
+        the call) is <= 1e-9.
    * "Popularity weighting only draws columns that occur in the data"
                                                         -> popular_draws_occur
    * "every eligible column can be drawn"               -> every_eligible_reachable *)
 From Coq Require Import ZArith List Bool.
 From LK Require Import Gen.C20_shape Model.C20_sampling Proofs.C20_key Proofs.C20_resample Proofs.C20_sample
-  Proofs.C20_history Proofs.C20_reach Proofs.C20_main.
+  Proofs.C20_history Proofs.C20_reach Proofs.C20_main Proofs.C20_count.
 Import ListNotations.
 Open Scope Z_scope.
 
@@ -96,6 +105,33 @@ Theorem single_row_failure_iff : forall m w att r ds out warns rest,
 Proof. exact single_row_failure_iff_l. Qed.
 Print Assumptions single_row_failure_iff.
 
+(* the plentiful clause as a count.  `all_streams m w L`: every in-range stream of L draws, each once;
+   `observed_draws m w r`: the draws that stand for an observed column of row r (uniform: its observed
+   columns; popularity: the records whose column r observes); `failing_streams m w att r`: the streams of
+   att+1 draws on which sample_negatives([r], verify=True, max_attempts=att) warns. *)
+Theorem all_streams_exact : forall m w L,
+  NoDup (all_streams m w L) /\ forall ds, In ds (all_streams m w L) <-> length ds = L /\ draws_ok m w ds.
+Proof. exact all_streams_exact_l. Qed.
+Print Assumptions all_streams_exact.
+
+Theorem observed_draws_exact : forall m w r d, wf m -> 0 <= r < B32 ->
+  (In d (observed_draws m w r) <-> 0 <= d < pop_n m w /\ observed m r (col_of m w d)).
+Proof. exact observed_draws_exact_l. Qed.
+Print Assumptions observed_draws_exact.
+
+Theorem plentiful_failure_count : forall m w att r,
+  length (failing_streams m w att r) = (length (observed_draws m w r) ^ (1 + Z.to_nat att))%nat
+  /\ length (all_streams m w (1 + Z.to_nat att)) = (Z.to_nat (pop_n m w) ^ (1 + Z.to_nat att))%nat.
+Proof. exact plentiful_failure_count_l. Qed.
+Print Assumptions plentiful_failure_count.
+
+(* unobserved columns plentiful (at least half of the draws miss): at most one stream in 2^(att+1) fails *)
+Theorem plentiful_failure_bound : forall m w att r,
+  (2 * length (observed_draws m w r) <= Z.to_nat (pop_n m w))%nat ->
+  (2 ^ (1 + Z.to_nat att) * length (failing_streams m w att r) <= length (all_streams m w (1 + Z.to_nat att)))%nat.
+Proof. exact plentiful_bound_l. Qed.
+Print Assumptions plentiful_failure_bound.
+
 Theorem popular_draws_occur : forall m verify att n rows ds out warns rest,
   draws_ok m Popular ds ->
   sample m Popular verify att n rows ds = Ok (out, warns, rest) -> Forall (Forall (occurs m)) out.
@@ -118,6 +154,12 @@ Print Assumptions every_eligible_reachable.
 (* non-vacuity: 3 x 3 matrix, row 0 fully dense, rows [0; 1; 2; 0], budget 2; the stream is the one
    PCG64(3) produced in the implementation.  Row 0 exhausts its budget twice over (one warning for two
    cells); rows 1 and 2 receive true negatives. *)
+(* non-vacuity of the count: 2 columns, row 0 observes column 0, budget 1: 1 of the 4 streams fails *)
+Example c20_count_nonvacuous :
+  let m := {| m_ncols := 2; m_pairs := [(0, 0)] |} in
+  failing_streams m Uniform 1 0 = [[0; 0]] /\ length (all_streams m Uniform 2) = 4%nat /\ observed_draws m Uniform 0 = [0].
+Proof. vm_compute. repeat split. Qed.
+
 Example c20_nonvacuous :
   let m := {| m_ncols := 3; m_pairs := [(0, 0); (0, 1); (0, 2); (1, 1); (2, 2)] |} in
   let ds := [2; 0; 0; 0; 0; 2; 2; 1] in
